@@ -223,6 +223,84 @@ theorem traverse_computed_array_bounded (dataLen itemLen : Nat) :
   · omega
   · exact Nat.div_le_self _ _
 
+/-! ## the Debug printer's thread-local budget -/
+
+theorem dbgEnter_facts (s : DbgSt) :
+    ((dbgEnter s).1 = false → (dbgEnter s).2 = s) ∧
+    ((dbgEnter s).1 = true → (dbgEnter s).2.depth = s.depth + 1) := by
+  unfold dbgEnter
+  simp only []
+  generalize (if s.depth = 0 then 0 else s.nodes) = n
+  by_cases hc : s.depth ≥ MAX_DEBUG_DEPTH ∨ n ≥ MAX_DEBUG_NODES
+  · simp [hc]
+  · simp [hc]
+
+mutual
+/-- printing a table / array leaves the nesting depth as it found it (guards are balanced, a refused
+entry does not touch the state) -/
+theorem dbgPrint_depth : ∀ (t : DTree) (s : DbgSt), (dbgPrint s t).1.depth = s.depth
+  | .node kids, s => by
+    unfold dbgPrint
+    have hf := dbgEnter_facts s
+    cases he : dbgEnter s with
+    | mk ok s' =>
+      rw [he] at hf
+      dsimp only at hf
+      cases ok with
+      | false => dsimp only; rw [hf.1 rfl]
+      | true =>
+        simp only [dbgLeave]
+        rw [dbgPrintAll_depth kids s', hf.2 rfl]
+        omega
+theorem dbgPrintAll_depth : ∀ (ts : List DTree) (s : DbgSt), (dbgPrintAll s ts).1.depth = s.depth
+  | [], s => by simp [dbgPrintAll]
+  | t :: ts, s => by
+    unfold dbgPrintAll
+    simp only []
+    rw [dbgPrintAll_depth ts, dbgPrint_depth t]
+end
+
+/-- a top-level call (`depth == 0`) behaves as on a fresh thread, whatever node count earlier calls left
+behind: `enter` discards the stale count -/
+theorem dbgPrint_top_level_fresh (t : DTree) (s : DbgSt) (h : s.depth = 0) :
+    dbgPrint s t = dbgPrint ⟨0, 0⟩ t := by
+  have he : dbgEnter s = dbgEnter ⟨0, 0⟩ := by
+    unfold dbgEnter
+    simp [h, MAX_DEBUG_DEPTH, MAX_DEBUG_NODES]
+  cases t with
+  | node kids => unfold dbgPrint; rw [he]
+
+/-- **the printer's budget is reset per top-level call**: after ANY sequence of top-level `{:?}` calls on
+a thread (however many nodes they printed, whether or not they ran into the limits) the state at the
+start of the next top-level call has depth 0 and the call enters with the initial budget (node count 1
+after entering, exactly as on a fresh thread). -/
+theorem debug_budget_reset_per_top_level_call (ts : List DTree) (s0 : DbgSt) (h0 : s0.depth = 0) :
+    (dbgCalls s0 ts).1.depth = 0 ∧ dbgEnter (dbgCalls s0 ts).1 = (true, ⟨1, 1⟩) := by
+  have hd : ∀ (ts : List DTree) (s : DbgSt), s.depth = 0 → (dbgCalls s ts).1.depth = 0 := by
+    intro ts
+    induction ts with
+    | nil => intro s h; simpa [dbgCalls] using h
+    | cons t ts ih =>
+      intro s h
+      unfold dbgCalls
+      simp only []
+      exact ih _ (by rw [dbgPrint_depth]; exact h)
+  have h := hd ts s0 h0
+  refine ⟨h, ?_⟩
+  unfold dbgEnter
+  simp [h, MAX_DEBUG_DEPTH, MAX_DEBUG_NODES]
+
+/-- **the Debug output is a function of the printed table alone** — the same on a later call and on
+another thread: every call of a sequence prints what a fresh thread prints. -/
+theorem debug_output_pure (ts : List DTree) (s0 : DbgSt) (h0 : s0.depth = 0) :
+    (dbgCalls s0 ts).2 = ts.map (fun t => (dbgPrint ⟨0, 0⟩ t).2) := by
+  induction ts generalizing s0 with
+  | nil => simp [dbgCalls]
+  | cons t ts ih =>
+    unfold dbgCalls
+    simp only [List.map_cons]
+    rw [ih _ (by rw [dbgPrint_depth]; exact h0), dbgPrint_top_level_fresh t s0 h0]
+
 /-! ## VARC -/
 
 /-- **`VarcComponentIter` terminates within one component per byte**: for every glyph record `d`
@@ -405,6 +483,9 @@ example : lookup2 [(9, 5, 77)] 7 = some 77 := by decide
 
 example : compGet 7 2 2 = some 4 ∧ compGet 7 2 3 = none ∧ compGet 7 0 100000 = some 0 := by decide
 example : (travTrace 7 2).map items = some [0, 2, 4] ∧ (travTrace 7 0).map items = some [] := by decide
+
+/-- a table with two children, printed after a call that left 2^20 nodes behind: printed in full -/
+example : (dbgPrint ⟨0, 1048576⟩ (.node [.node [], .node []])).2 = [true, true, true] := by decide
 
 /-- the hypothesis of `cursor_loop_bounded` is satisfiable: a one-byte read -/
 example (d : List Nat) (hlen : d.length ≤ MAXU) : ∀ c : Cur, c.pos < d.length → c.pos < (c.read d 1).2.pos := by
